@@ -432,7 +432,16 @@ func c13Exec(raw json.RawMessage) Result {
 		}
 		done := make(chan struct{}, 2)
 		go func() { call(op.First); done <- struct{}{} }()
-		<-g.entered // the first operation is inside the sink
+		select {
+		case <-g.entered: // the first operation is inside the sink
+		case <-done:
+			// the call returned without ever reaching the wrapped sink: Lock must relay every Write and every Sync
+			return Result{Impl: map[string]any{"intruded": false}, Oracle: bad("C13:lock-relay", "a %s on a fresh Lock(sink) returned without reaching the sink", op.First),
+				Nontrivial: true, Shape: "lockgate/" + op.Second + "-during-" + op.First}
+		case <-time.After(5 * time.Second):
+			return Result{Impl: map[string]any{"intruded": false}, Oracle: bad("C13:lock-relay", "a %s on a fresh Lock(sink) neither reached the sink nor returned within 5 s", op.First),
+				Nontrivial: true, Shape: "lockgate/" + op.Second + "-during-" + op.First}
+		}
 		go func() { call(op.Second); done <- struct{}{} }()
 		intruded := false
 		select {
@@ -441,10 +450,18 @@ func c13Exec(raw json.RawMessage) Result {
 		case <-time.After(30 * time.Millisecond):
 		}
 		close(g.release)
-		<-done
-		<-done
+		stuck := false
+		for i := 0; i < 2 && !stuck; i++ {
+			select {
+			case <-done:
+			case <-time.After(5 * time.Second):
+				stuck = true
+			}
+		}
 		o := ok()
-		if intruded {
+		if stuck {
+			o = bad("C13:lock-stuck", "after the sink let the %s go, the %s / %s pair did not both return within 5 s (a lock left held?)", op.First, op.First, op.Second)
+		} else if intruded {
 			o = bad("C13:lock-overlap:"+op.Second+"-during-"+op.First, "a %s entered the locked sink while a %s was still inside it", op.Second, op.First)
 		}
 		return Result{Impl: map[string]any{"intruded": intruded}, Oracle: o, Nontrivial: true, Shape: "lockgate/" + op.Second + "-during-" + op.First}
